@@ -264,6 +264,19 @@ pub fn run_c11(tier: Tier) -> ! {
             }
         }
     }
+    // baud rates: the three-station-ring situation of TS 3 once more at 9600 baud, 1.5 and 12 Mbit/s (minimum
+    // slot time of the rate; bit times below a microsecond)
+    {
+        let base: Vec<_> = cfgs.iter().filter(|(l, c, ..)| c.ts == 3 && l.contains("sit2") && c.period_div == 8).cloned().collect();
+        for (label, cfg, depth, secs, cap) in base {
+            for baud in [0usize, 3, 4] {
+                let mut c = cfg.clone();
+                c.baud = baud;
+                c.slot_bits = c.slot_bits.max(crate::w2::MIN_SLOT[baud]);
+                cfgs.push((format!("{label} baud#{baud}"), c, depth, secs, cap));
+            }
+        }
+    }
     let mut t = w4props::Totals::default();
     w2_explore(cfgs, &mut t);
     // part (2): forged token offers inside running rings of real stations
@@ -452,7 +465,7 @@ pub fn run_c05(tier: Tier) -> ! {
         };
         for (ts, hsa, members0) in cases {
             for g in [1u8, 2] {
-                let cfg = RCfg { ts, hsa, gap_factor: g, slot_bits: 100, ttr: None, period_div: 8, members0: members0.clone(), scripts: vec![], multi: false, mon: RMon::C05, max_visits: if hsa > 100 { 140 } else { tier.pick(14, 24) }, join_budget: tier.pick(1, 2), origin_us: 0 };
+                let cfg = RCfg { ts, hsa, gap_factor: g, slot_bits: 100, ttr: None, period_div: 8, members0: members0.clone(), scripts: vec![], multi: false, mon: RMon::C05, max_visits: if hsa > 100 { 140 } else { tier.pick(14, 24) }, join_budget: tier.pick(1, 2), origin_us: 0, baud: 1 };
                 rcfgs.push((format!("reactive TS{ts} HSA{hsa} G{g} members{members0:?}"), cfg, 60, tier.pick(120.0, 3000.0), tier.pick(60_000, 600_000)));
             }
         }
